@@ -30,12 +30,15 @@ META = dict(
 )
 
 OUTS = ("Out1", "Out2", "Free")
-WRITERS = {"SetOut": "Out1", "Set1": "Out1", "Valve": "Out2"}
+WRITERS = {"SetOut": "Out1", "Set1": "Out1", "Valve": "Out2", "On1": "Out1", "OpenV": "Out2"}
 
 # abstract events; ("set1",) and ("valve",) are made concrete per position (fresh value / toggled value); ("bogus",) injects
 # a line that fails when interpreted (error pause about three ticks later)
 ALPHABET = [("user", "Start"), ("user", "Pause"), ("user", "Unpause"), ("user", "Stop"), ("user", "Restart"),
             ("set1",), ("valve",), ("bogus",), ("tick", 1), ("tick", 3)]
+# second alphabet: the user commands outputs directly (UOD commands without arguments), also while paused
+ALPHABET_B = [("user", "Pause"), ("user", "Unpause"), ("user", "On1"), ("user", "OpenV"), ("set1",), ("tick", 1), ("tick", 3)]
+ALPHABETS = [ALPHABET, ALPHABET_B]
 METHODS = [
     "Wait: 100s",
     "Set1: 5\nPause: 0.2s\nWait: 100s",
@@ -59,6 +62,10 @@ SEEDS = [
     [("user", "Start"), ("set1",), ("valve",), ("tick", 3), ("tick", 2)],
     # method 4 only: the method's timed Pause has just begun (it expires six ticks later)
     [("user", "Start"), ("tick", 3), ("tick", 3), ("tick", 1)],
+    # alphabet B only: a run is active and every output is at its safe value
+    [("user", "Start"), ("tick", 3)],
+    # alphabet B only: ... and the run has just been paused by the user
+    [("user", "Start"), ("tick", 3), ("user", "Pause"), ("tick", 1)],
 ]
 
 
@@ -264,7 +271,8 @@ def run_events(method, warm, suffix, prune=True):
 def explore(item):
     """All sequences of exactly `depth` events that begin with `prefix`, in odometer order; a rejected request at position i
     skips every sequence sharing the prefix up to i."""
-    mi, wi, prefix, depth = item
+    mi, wi, prefix, depth = item[:4]
+    ALPHABET = ALPHABETS[item[4]] if len(item) > 4 else ALPHABETS[0]          # noqa: N806 (shadows the module constant on purpose)
     method, warm = METHODS[mi], SEEDS[wi]
     n = len(ALPHABET)
     free = depth - len(prefix)
@@ -324,7 +332,7 @@ def explore(item):
 DEEPER = [(0, 0), (3, 0)]          # (method, seed) explored one level deeper in the thorough tier
 # quick tier: every seed on the plain method, the other methods on the fresh engine and on the seeds they add something to
 QUICK_COMBOS = [(0, 0), (0, 1), (0, 2), (0, 3), (0, 4), (1, 0), (1, 4), (2, 0), (2, 2), (2, 3), (3, 0), (3, 4), (4, 5)]
-ONLY_WITH = {5: (4,), }            # seed -> methods it makes sense for
+ONLY_WITH = {5: (4,), 6: (), 7: ()}            # seed -> methods it makes sense for
 
 
 
@@ -344,6 +352,15 @@ def run(ctx):
             for a in range(n):
                 for b in range(n):
                     items.append((mi, wi, (a, b), d))
+    # user-commanded outputs (alphabet B) on the plain method: from a fresh engine, from a running run with driven outputs and
+    # from a running run whose outputs are at their safe values
+    nb = len(ALPHABET_B)
+    db = depth + 1
+    for wi in (0, 4, 6, 7):
+        depths[f"0,{wi},B"] = db
+        for a in range(nb):
+            for b in range(nb):
+                items.append((0, wi, (a, b), db, 1))
     ctx.prove_deterministic(lambda it: explore((it[0], it[1], it[2], 4)), [items[0], items[n * n * 6 + 10], items[n * n * 9 + 75]], k=3)
     results = ctx.pmap(explore, items, chunk=4)
     tot = dict(execs=0, pruned=0, transitions=0, checked=0, nontrivial=0, nontrivial_execs=0, ambiguous=0, double=0, two_runs=0)
@@ -378,7 +395,7 @@ def run(ctx):
              "the pre-pause outputs differed from the safe values; states = distinct (system state, run flags, paused period "
              "open, outputs driven, second run, earlier pause in history) observed after a tick",
         samples=samples, exhaustive=True, depth=depth, depth_per_method_and_seed=depths, methods=METHODS, seeds=[[list(e) for e in s] for s in SEEDS],
-        alphabet=[list(a) for a in ALPHABET], pruned_after_rejected_request=tot["pruned"],
+        alphabet=[list(a) for a in ALPHABET], alphabet_B=[list(a) for a in ALPHABET_B], pruned_after_rejected_request=tot["pruned"],
         executions_reaching_second_run=tot["two_runs"], unpause_kinds=sorted(kinds),
         unpause_checks_on_driven_outputs=tot["nontrivial"], register_checks_skipped_same_tick_command=tot["ambiguous"],
         double_pause_periods=tot["double"], unpause_checks_per_method=per_method_checked)
